@@ -37,13 +37,17 @@ theorem C20.prefixAll_spec (ws : List (List UInt8)) (p : List UInt8) :
     rw [← pfx_append]
     exact (C20.contains_iff ws (p ++ w)).2 ⟨h1, h2⟩
 
-/-- tab completion only ever extends what the user typed to a prefix of something inserted -/
-theorem C20.complete_sound (ws : List (List UInt8)) (typed s : List UInt8) (n : Nat)
-    (h : complete (build ws) typed = some (s, n)) :
-    typed <+: s ∧ n = s.length ∧ ∃ w ∈ ws, s <+: w := by
+/-- tab completion only ever extends what the user typed before the cursor to a prefix of something
+inserted, puts the cursor right after it and keeps what was after the cursor: the new line is
+`c ++ line.drop pos` with `line.take pos <+: c`, `c` a prefix of an inserted word and the new cursor `c.length` -/
+theorem C20.complete_sound (ws : List (List UInt8)) (line s : List UInt8) (pos n : Nat)
+    (h : complete (build ws) line pos = some (s, n)) :
+    ∃ c, s = c ++ line.drop pos ∧ n = c.length ∧ line.take pos <+: c ∧ ∃ w ∈ ws, c <+: w := by
+  generalize htyped : line.take pos = typed at h
   have hs := allBytes_spec (pfx (build ws) typed) typed (wf_pfx _ _ (wf_build ws))
   have hp := C20.prefixAll_spec ws typed
   unfold complete at h
+  rw [htyped] at h
   unfold prefixAll at h hp
   generalize hr : allBytes (pfx (build ws) typed) typed = r at h hs hp
   obtain ⟨l, cs⟩ := r
@@ -62,15 +66,25 @@ theorem C20.complete_sound (ws : List (List UInt8)) (typed s : List UInt8) (n : 
         rw [this] at hr; cases hr
     have hge : typed.length ≤ l := hs.ge hnn
     have hle : l ≤ (typed ++ w).length := ((hs.lcp (by simp)).1 _ hc _ hc).1
-    refine ⟨?_, ?_, typed ++ w, hcws, List.take_prefix _ _⟩
+    refine ⟨(typed ++ w).take l, rfl, ?_, ?_, typed ++ w, hcws, List.take_prefix _ _⟩
+    · rw [List.length_take]; omega
     · rw [List.take_append, List.take_of_length_le hge]
       exact List.prefix_append _ _
-    · rw [List.length_take]; omega
+
+/-- with the cursor at the end of the line (the usual case): the new line extends the whole line -/
+theorem C20.complete_sound_at_end (ws : List (List UInt8)) (typed s : List UInt8) (n : Nat)
+    (h : complete (build ws) typed typed.length = some (s, n)) :
+    typed <+: s ∧ n = s.length ∧ ∃ w ∈ ws, s <+: w := by
+  obtain ⟨c, rfl, rfl, hpre, hw⟩ := C20.complete_sound ws typed _ _ _ h
+  simp at hpre ⊢
+  exact ⟨hpre, hw⟩
 
 /-! ### non-vacuity: a concrete history where a word ends on an inner node, and a mixed one -/
 
 example : contains (build [[97, 98], [97]]) [97] = true := by decide
 example : (prefixAll (build [[97, 98], [97], [98]]) [97]) = (1, [[97], [97, 98]]) := by decide
-example : complete (build [[112, 114, 40], [112, 114, 105]]) [112] = some ([112, 114], 2) := by decide
+example : complete (build [[112, 114, 40], [112, 114, 105]]) [112] 1 = some ([112, 114], 2) := by decide
+-- the cursor inside the line: `p|xy` becomes `pr|xy`
+example : complete (build [[112, 114, 40], [112, 114, 105]]) [112, 120, 121] 1 = some ([112, 114, 120, 121], 2) := by decide
 
 end Grol.Trie
